@@ -545,6 +545,23 @@ impl Property for C01 {
         if rng.chance(8) {
             sc.cmds = gen::goto_machine(rng, false);
         }
+        if rng.chance(3) {
+            // large counts: hundreds of syllables times hundreds of dots, also as a label / comparison count
+            let h = rng.usize(150, 1500);
+            let d = rng.usize(150, 1500);
+            let heart = rng.range(2, 12) as u8;
+            let area = match rng.below(3) {
+                0 => crate::reflang::RArea::Nil,
+                1 => crate::reflang::RArea::Leaf(heart),
+                _ => crate::reflang::RArea::Node(rng.below(2) as u8, Box::new(crate::reflang::RArea::Leaf(heart)), Box::new(crate::reflang::RArea::Nil)),
+            };
+            let pos = rng.usize(0, sc.cmds.len());
+            sc.cmds.insert(pos, crate::reflang::Cmd::new(*rng.pick(&[0u8, 0, 1, 5]), h, d, area.clone()));
+            if rng.chance(60) {
+                let pos2 = rng.usize(0, sc.cmds.len());
+                sc.cmds.insert(pos2, crate::reflang::Cmd::new(0, h, d, area));
+            }
+        }
         sc.stdin = gen::gen_stdin(rng, 60);
         let fault_free = rng.chance(40);
         sc.plan = gen::gen_plan(rng, fault_free);
